@@ -311,21 +311,19 @@ theorem loopFrame_eq (o' : List Name) (tg : List Name) (body els : List Stmt) (r
   exact ⟨_, rfl⟩
 
 mutual
-theorem refOk_of : ∀ (s : Stmt) (outer : List Name) (st : St), nf s = true →
+theorem refOk_of : ∀ (s : Stmt) (outer : List Name) (st : St),
     (∀ n, n ∈ needs s → HasRef outer st n) → refOk outer st s = true
-  | .output e, outer, st, _, h => by
+  | .output e, outer, st, h => by
     simp only [refOk]
     exact allRef_of (fun n hn => h n (by simpa [needs] using hn))
-  | .ite t b ei el, outer, st, hnf, h => by
-    simp only [nf, Bool.and_eq_true] at hnf
+  | .ite t b ei el, outer, st, h => by
     simp only [refOk, Bool.and_eq_true]
     refine ⟨⟨⟨?_, ?_⟩, ?_⟩, ?_⟩
     · exact allRef_of (fun n hn => h n (by simp [needs, hn]))
-    · exact refOks_of b _ _ hnf.1.1 (fun n hn => h n (by simp [needs, hn]))
-    · exact refOks_of ei _ _ hnf.1.2 (fun n hn => h n (by simp [needs, hn]))
-    · exact refOks_of el _ _ hnf.2 (fun n hn => h n (by simp [needs, hn]))
-  | .for_ tg it body els test rc, outer, st, hnf, h => by
-    simp only [nf, Bool.and_eq_true] at hnf
+    · exact refOks_of b _ _ (fun n hn => h n (by simp [needs, hn]))
+    · exact refOks_of ei _ _ (fun n hn => h n (by simp [needs, hn]))
+    · exact refOks_of el _ _ (fun n hn => h n (by simp [needs, hn]))
+  | .for_ tg it body els test rc, outer, st, h => by
     simp only [refOk, Bool.and_eq_true]
     obtain ⟨st0, hlf⟩ := loopFrame_eq (inner outer st) tg body els rc
     refine ⟨⟨⟨⟨?_, ?_⟩, ?_⟩, ?_⟩, ?_⟩
@@ -338,29 +336,25 @@ theorem refOk_of : ∀ (s : Stmt) (outer : List Name) (st : St), nf s = true →
         simp only [testFrame]
         exact allRef_of (fun n hn => loadAll_has _ _ _ _ hn)
     · rw [hlf]
-      exact refOks_of body _ _ hnf.1 (fun n hn => needss_have body _ _ n hn)
+      exact refOks_of body _ _ (fun n hn => needss_have body _ _ n hn)
     · simp only [elseFrame]
-      exact refOks_of els _ _ hnf.2 (fun n hn => needss_have els _ _ n hn)
-  | .assign ts e, outer, st, _, h => by
+      exact refOks_of els _ _ (fun n hn => needss_have els _ _ n hn)
+  | .assign ts e, outer, st, h => by
     simp only [refOk]
     exact allRef_of (fun n hn => h n (by simpa [needs] using hn))
-  | .assignBlock t flt body, outer, st, hnf, h => by
-    simp only [nf, Bool.and_eq_true, List.isEmpty_iff] at hnf
-    simp only [refOk, Bool.and_eq_true]
+  | .assignBlock t flt body, outer, st, h => by
+    simp only [refOk, Bool.and_eq_true, filterFrame]
     refine ⟨⟨?_, ?_⟩, ?_⟩
     · exact allRef_of (fun n hn => h n (by simpa [needs] using hn))
-    · rw [hnf.1]; rfl
-    · simp only [plainFrame]
-      exact refOks_of body _ _ hnf.2 (fun n hn => needss_have body _ _ n hn)
-  | .with_ tg vs body, outer, st, hnf, h => by
-    simp only [nf] at hnf
+    · exact allRef_of (fun n hn => loadAll_has _ _ _ _ hn)
+    · exact refOks_of body _ _ (fun n hn => (needss_have body _ _ n hn).mono (fun x hx => loadAll_mono _ _ _ _ hx))
+  | .with_ tg vs body, outer, st, h => by
     simp only [refOk, Bool.and_eq_true, withFrame]
     refine ⟨⟨?_, ?_⟩, ?_⟩
     · exact allRef_of (fun n hn => h n (by simpa [needs] using hn))
     · exact allRef_of (fun n hn => Or.inl (fsvs_mono body _ _ _ (declParams_has tg _ n hn)))
-    · exact refOks_of body _ _ hnf (fun n hn => needss_have body _ _ n hn)
-  | .macro_ nm args d body, outer, st, hnf, h => by
-    simp only [nf] at hnf
+    · exact refOks_of body _ _ (fun n hn => needss_have body _ _ n hn)
+  | .macro_ nm args d body, outer, st, h => by
     simp only [refOk, Bool.and_eq_true]
     obtain ⟨st0, hf⟩ := macroFrame_eq (inner outer st) args d body
     rw [hf]
@@ -370,9 +364,8 @@ theorem refOk_of : ∀ (s : Stmt) (outer : List Name) (st : St), nf s = true →
       rcases List.mem_append.mp hn with hn | hn
       · exact Or.inl (fsvs_mono body _ _ _ (loadAll_mono _ _ _ _ (declParams_has args st0 n hn)))
       · exact (loadAll_has _ d _ n hn).mono (fun x hx => fsvs_mono body _ _ _ hx)
-    · exact refOks_of body _ _ hnf (fun n hn => needss_have body _ _ n hn)
-  | .callBlock c args d body, outer, st, hnf, h => by
-    simp only [nf] at hnf
+    · exact refOks_of body _ _ (fun n hn => needss_have body _ _ n hn)
+  | .callBlock c args d body, outer, st, h => by
     simp only [refOk, Bool.and_eq_true]
     obtain ⟨st0, hf⟩ := macroFrame_eq (inner outer st) args d body
     rw [hf]
@@ -382,35 +375,31 @@ theorem refOk_of : ∀ (s : Stmt) (outer : List Name) (st : St), nf s = true →
       rcases List.mem_append.mp hn with hn | hn
       · exact Or.inl (fsvs_mono body _ _ _ (loadAll_mono _ _ _ _ (declParams_has args st0 n hn)))
       · exact (loadAll_has _ d _ n hn).mono (fun x hx => fsvs_mono body _ _ _ hx)
-    · exact refOks_of body _ _ hnf (fun n hn => needss_have body _ _ n hn)
-  | .filterBlock flt body, outer, st, hnf, h => by
-    simp only [nf] at hnf
+    · exact refOks_of body _ _ (fun n hn => needss_have body _ _ n hn)
+  | .filterBlock flt body, outer, st, h => by
     simp only [refOk, Bool.and_eq_true, filterFrame]
     refine ⟨?_, ?_⟩
     · exact allRef_of (fun n hn => loadAll_has _ _ _ _ hn)
-    · exact refOks_of body _ _ hnf (fun n hn => (needss_have body _ _ n hn).mono (fun x hx => loadAll_mono _ _ _ _ hx))
-  | .block _ _ _, outer, st, _, h => by simp only [refOk]
-  | .ref _ _ e binds, outer, st, _, h => by
+    · exact refOks_of body _ _ (fun n hn => (needss_have body _ _ n hn).mono (fun x hx => loadAll_mono _ _ _ _ hx))
+  | .block _ _ _, outer, st, h => by simp only [refOk]
+  | .ref _ _ e binds, outer, st, h => by
     simp only [refOk]
     exact allRef_of (fun n hn => h n (by simpa [needs] using hn))
-  | .scope body, outer, st, hnf, h => by
-    simp only [nf] at hnf
+  | .scope body, outer, st, h => by
     simp only [refOk, plainFrame]
-    exact refOks_of body _ _ hnf (fun n hn => needss_have body _ _ n hn)
-  | .evalctx o b, outer, st, hnf, h => by
-    simp only [nf] at hnf
+    exact refOks_of body _ _ (fun n hn => needss_have body _ _ n hn)
+  | .evalctx o b, outer, st, h => by
     simp only [refOk, Bool.and_eq_true]
     refine ⟨?_, ?_⟩
     · exact allRef_of (fun n hn => h n (by simp [needs, hn]))
-    · exact refOks_of b _ _ hnf (fun n hn => h n (by simp [needs, hn]))
-theorem refOks_of : ∀ (ss : List Stmt) (outer : List Name) (st : St), nfs ss = true →
+    · exact refOks_of b _ _ (fun n hn => h n (by simp [needs, hn]))
+theorem refOks_of : ∀ (ss : List Stmt) (outer : List Name) (st : St),
     (∀ n, n ∈ needss ss → HasRef outer st n) → refOks outer st ss = true
-  | [], outer, st, _, h => by simp only [refOks]
-  | s :: ss, outer, st, hnf, h => by
-    simp only [nfs, Bool.and_eq_true] at hnf
+  | [], outer, st, h => by simp only [refOks]
+  | s :: ss, outer, st, h => by
     simp only [refOks, Bool.and_eq_true]
-    exact ⟨refOk_of s _ _ hnf.1 (fun n hn => h n (by simp [needss, hn])),
-           refOks_of ss _ _ hnf.2 (fun n hn => h n (by simp [needss, hn]))⟩
+    exact ⟨refOk_of s _ _ (fun n hn => h n (by simp [needss, hn])),
+           refOks_of ss _ _ (fun n hn => h n (by simp [needss, hn]))⟩
 end
 
 end JinjaV.Scope.Lemmas
